@@ -261,7 +261,10 @@ pub fn queries_for(case: &MapCase) -> Queries {
     let pool = name_pool_for(&case.file, &u);
     let texts: Vec<String> = sample_n(&trace::text_trace(&pool, 8), case.key ^ 0xc12, 2).into_iter().map(|t| t.render()).collect();
     let typed = sample_n(&trace::trace(&pool, 4, 2), case.key ^ 0xc13, 2);
-    let sigs: Vec<String> = sample_n(&crate::gen::descriptor::desc(&u.known_classes), case.key ^ 0xc14, 3).into_iter().map(|d| d.encode()).collect();
+    let mut sigs: Vec<String> = sample_n(&crate::gen::descriptor::desc(&u.known_classes), case.key ^ 0xc14, 3).into_iter().map(|d| d.encode()).collect();
+    if case.key % 32 == 0 {
+        sigs.extend(super::c13::limit_sigs());
+    }
     Queries { u, lines, texts, typed, sigs }
 }
 
@@ -425,6 +428,87 @@ pub fn check_exhaustive(case: &MapCase, st: &mut Stats) -> Check {
     Ok(())
 }
 
+/// Corruption of a cache with thousands of classes (fast paths that only exist above a size threshold):
+/// class records swapped / duplicated / name offsets redirected, then many class lookups whose binary-search paths
+/// cross the damaged records.
+#[derive(Clone, Debug, Serialize, Deserialize)]
+pub struct WideCorrupt {
+    pub n: usize,
+    pub corr: Vec<Corr>,
+    pub probes: Vec<u16>,
+}
+
+pub fn wide_corrupt_case() -> BoxedStrategy<WideCorrupt> {
+    let c = prop_oneof![
+        4 => (any::<u16>(), any::<u16>()).prop_map(|(a, b)| Corr::SwapRecs { section: 1, a, b }),
+        3 => (any::<u16>(), any::<u16>()).prop_map(|(from, to)| Corr::DupRec { section: 1, from, to }),
+        4 => (any::<u16>(), 0u8..3, valsel()).prop_map(|(rec, field, value)| Corr::SetField { section: 1, rec, field, value }),
+        1 => corr(),
+    ];
+    (proptest::sample::select(&[4096usize, 4097, 5000][..]), vec(c, 1..4), vec(any::<u16>(), 30..120)).prop_map(|(n, corr, probes)| WideCorrupt { n, corr, probes }).boxed()
+}
+
+pub fn check_wide(c: &WideCorrupt, st: &mut Stats) -> Check {
+    // class names share long prefixes and have very different lengths
+    let mut text = String::new();
+    for i in 0..c.n {
+        let name = match i % 4 {
+            0 => format!("com.example.pkg.deep.C{i}"),
+            1 => format!("com.example.pkg.deep.C{i}$Inner$1"),
+            2 => format!("c{i}"),
+            _ => format!("com.example.pkg.d{}", "x".repeat(i % 40)),
+        };
+        text.push_str(&format!("orig.O{i} -> {name}{}:\n    void m() -> a\n", if i % 4 == 3 { format!("{i}") } else { String::new() }));
+    }
+    let valid = write_cache(text.as_bytes())?;
+    let h = layout::read_header(valid.bytes()).ok_or_else(|| Fail::new("layout-decode", "short file"))?;
+    let mut buf = AlignedBuf::new(valid.bytes());
+    for co in &c.corr {
+        let l = apply(buf.bytes_mut(), &h, co);
+        st.class(&format!("wide operator: {l}"));
+    }
+    let names: Vec<String> = c
+        .probes
+        .iter()
+        .map(|p| {
+            let i = ((*p as usize) * c.n) >> 16;
+            match i % 4 {
+                0 => format!("com.example.pkg.deep.C{i}"),
+                1 => format!("com.example.pkg.deep.C{i}$Inner$1"),
+                2 => format!("c{i}"),
+                _ => format!("com.example.pkg.d{}{i}", "x".repeat(i % 40)),
+            }
+        })
+        .chain(["".to_string(), "c".to_string(), "com.example.pkg.deep.C".to_string(), "zzzz".to_string(), "com.example.pkg.d".to_string()])
+        .collect();
+    let parsed = guarded(|| proguard::ProguardCache::parse(buf.bytes())).map_err(|p| Fail::new("parse-panic", p))?;
+    let Ok(cache) = parsed else {
+        st.class("corrupted buffer rejected by parse");
+        return Ok(());
+    };
+    let cache = cur::C(cache);
+    let mut reached = 0;
+    guarded(|| {
+        for n in &names {
+            if cache.class(n).is_some() {
+                reached += 1;
+            }
+            let _ = cache.method(n, "a");
+            let _ = cache.frame_line(n, "a", 1, None);
+            let _ = cache.frame_params(n, "a", "");
+            let _ = cache.throwable(n, None);
+        }
+        let _ = cache.text("a.b: c\n    at c5.a(F:1)\n");
+        let _ = cache.sig("(Lc5;)Lcom/example/pkg/deep/C4;");
+    })
+    .map_err(|p| Fail::new("query-panic", format!("query on a corrupted cache with {} classes: {p}", c.n)).with(json!({"panic": p})))?;
+    st.evaluations += names.len() as u64 * 5;
+    if reached > 0 {
+        st.nontrivial(fnv64(buf.bytes()));
+    }
+    Ok(())
+}
+
 pub fn check_hex(hexbuf: &str, case: &MapCase) -> Check {
     let buf = AlignedBuf::new(&crate::engine::unhex(hexbuf));
     let q = queries_for(case);
@@ -438,6 +522,7 @@ pub fn run(ctx: &Ctx) -> Report {
     rep.assumptions = vec!["buffers are 8-byte aligned".into(), "harness built with overflow-checks=on so arithmetic overflow is observable as a panic".into()];
     rep.run_stage("corrupt", corrupt_case, ctx.cases(150_000, 9_000_000), check_case);
     rep.run_stage("tall", tall_corrupt_case, ctx.cases(300, 12_000), check_case);
+    rep.run_stage("wide", wide_corrupt_case, ctx.cases(400, 12_000), check_wide);
     if ctx.tier == crate::engine::Tier::Thorough {
         let small = GenCfg { max_blocks: 2, max_items: 3, long: 0, fresh: 0, ..cfg() };
         rep.run_stage("exhaustive-fields", move || map_case(&small), ctx.cases(1, 900), check_exhaustive);
@@ -450,6 +535,7 @@ pub fn replay(stage: &str, case: &Value) -> Check {
     let mut st = Stats::new();
     let de = |e: serde_json::Error| Fail::new("harness-replay", e.to_string());
     match stage {
+        "wide" => check_wide(&serde_json::from_value(case.clone()).map_err(de)?, &mut st),
         "corrupt" | "tall" => check_case(&serde_json::from_value(case.clone()).map_err(de)?, &mut st),
         "exhaustive-fields" => check_exhaustive(&serde_json::from_value(case.clone()).map_err(de)?, &mut st),
         _ => Err(Fail::new("harness-replay", format!("unknown stage {stage}"))),
